@@ -74,8 +74,10 @@ fn project_code(full: &Ev, cm: &Mask) -> Ev {
 				let wanted = |k: u8| match k { 0 => has(cm, "line_number_table"), 1 => has(cm, "local_variable_table"), _ => has(cm, "local_variable_type_table") };
 				let kept: Vec<(u8, String)> = items.iter().filter(|(k, _)| wanted(*k)).cloned().collect();
 				let any_flag = if *slot == "line_number_table" { wanted(0) } else { wanted(1) || wanted(2) };
+				let all_flags = if *slot == "line_number_table" { wanted(0) } else { wanted(1) && wanted(2) };
 				if !any_flag { None }
-				else if kept.len() == items.len() { Some(Ev::Deferred { slot, items: kept, optional: false }) }
+				else if all_flags { Some(e.clone()) }
+				else if kept.len() == items.len() && !items.is_empty() { Some(Ev::Deferred { slot, items: kept, optional: false }) }
 				// nothing of the wanted kind in the full table: the attribute of that kind is absent (no visit) or empty (visit of an empty table)
 				else if kept.is_empty() { Some(Ev::Deferred { slot, items: kept, optional: true }) }
 				else { Some(Ev::Deferred { slot, items: kept, optional: false }) }
@@ -313,8 +315,11 @@ fn sorted_dbg(es: &[Ev]) -> Vec<String> {
 		Ev::Rc { hdr, es } => format!("Rc {hdr} {:?}", es.as_ref().map(|e| sorted_dbg(e))),
 		// labels that nothing delivered refers to may or may not be attached (the tree keeps those of the full read)
 		Ev::Code { max_stack, max_locals, insns, exc, es, .. } => format!("Code {max_stack} {max_locals} {:?} {exc} {:?}", insns.iter().map(|i| (&i.frame, &i.text)).collect::<Vec<_>>(), sorted_dbg(es)),
+		// the visit of an empty table carries no facts (the tree cannot tell which of LocalVariableTable /
+		// LocalVariableTypeTable an empty table came from)
+		Ev::Deferred { items, .. } if items.is_empty() => String::new(),
 		e => format!("{e:?}"),
-	}).collect();
+	}).filter(|s| !s.is_empty()).collect();
 	// members keep their order (they are compared in order); attribute-level events are a multiset
 	let members: Vec<String> = v.iter().filter(|s| s.starts_with("Method ") || s.starts_with("Field ") || s.starts_with("Rc ")).cloned().collect();
 	v.retain(|s| !(s.starts_with("Method ") || s.starts_with("Field ") || s.starts_with("Rc ")));
